@@ -6,6 +6,7 @@ package main
 // DFS over schedules, vector-clock race check, scenarios.
 
 import (
+	"encoding/json"
 	"fmt"
 	"os"
 	"os/exec"
@@ -22,7 +23,55 @@ import (
 	"github.com/jmeaster30/vore/libvore/files"
 )
 
-func init() { c19Run = runC19 }
+func init() {
+	c19Run = runC19
+	extraCmds["c19replay"] = c19Replay
+}
+
+// c19Replay re-executes one recorded schedule (without the explorer) and reports what it observes.
+func c19Replay(args []string) {
+	b, err := os.ReadFile(args[0])
+	if err != nil {
+		fmt.Println(err)
+		os.Exit(2)
+	}
+	var rec struct {
+		Scenario string `json:"scenario"`
+		Choices  []int  `json:"choices"`
+		Problem  string `json:"problem"`
+	}
+	json.Unmarshal(b, &rec)
+	installC19Hooks()
+	for _, sc := range c19Scenarios() {
+		if sc.name != rec.Scenario {
+			continue
+		}
+		bodies, finish := sc.threads(sc.setup())
+		for _, f := range bodies {
+			f()
+		}
+		want := finish()
+		bodies, finish = sc.threads(sc.setup())
+		x := runSchedule(bodies, rec.Choices)
+		obs := finish()
+		fmt.Printf("scenario: %s\nschedule: %s\nrecorded problem: %s\n", sc.name, compress(rec.Choices), rec.Problem)
+		bad := x.deadlock != "" || len(x.races) > 0
+		for i := range obs {
+			fmt.Printf("call %d returns %.200q\n   alone:        %.200q\n", i, obs[i], want[i])
+			if obs[i] != want[i] {
+				bad = true
+			}
+		}
+		fmt.Printf("deadlock: %q\nraces: %v\n", x.deadlock, x.races)
+		if bad {
+			os.Exit(1)
+		}
+		fmt.Println("replay passes (no violation)")
+		return
+	}
+	fmt.Println("unknown scenario", rec.Scenario)
+	os.Exit(2)
+}
 
 type vclock []int
 
